@@ -13,6 +13,8 @@ import ModbusVerif.Model.IoTrace
 import ModbusVerif.Model.System
 import ModbusVerif.Spec.RegFile
 import ModbusVerif.Model.Cli
+import ModbusVerif.Model.MultiSession
+import ModbusVerif.Model.Reconnect
 /-
   mbmodel: line protocol. One operation per input line, one canonical output line.
   Unknown or malformed lines print `bad-op` (never a default).
@@ -77,6 +79,42 @@ def showEvents (l : List Server.Event) : String := ";".intercalate (l.map showEv
 def cfgOf (kind unit e w : String) : Option Client.Cfg := do
   pure { kind := ← kindOfName kind, unitId := BitVec.ofNat 8 (← unit.toNat?),
          endian := endianOfNat (← e.toNat?), word := wordOfNat (← w.toNat?) }
+
+/-! C11: several sessions sharing the memory handler (`Multi.runMulti`) -/
+def parseMultiConn (s : String) : Option (Bytes × Option Ending) :=
+  match s.splitOn "/" with
+  | [h, "none"] => (unhex h).map fun b => (b, none)
+  | [h, e] => do pure ((← unhex h), some (← endingOfName e))
+  | _ => none
+
+def multiRun (sched : String) (conns : List String) : String :=
+  let sch : Option (List Nat) := if sched = "-" then some [] else (sched.splitOn ",").mapM String.toNat?
+  match sch, conns.mapM parseMultiConn with
+  | some sc, some cs =>
+    let s := Multi.runMulti System.memHandler System.Mem.init (cs.map fun p => Multi.Conn.new p.1 p.2) sc
+    let idx := (List.range s.conns.length).zip s.conns
+    " ".intercalate (idx.map fun p => s!"out{p.1}={hex p.2.output} live{p.1}={if p.2.live then 1 else 0}") ++
+      " calls=" ++ (if s.calls.isEmpty then "-" else ";".intercalate (s.calls.map fun p => s!"{p.1}:{showHReq p.2}"))
+  | _, _ => "bad-op"
+
+/-! C13: Close / Open as steps of a connection history (`Reconnect.steps`) -/
+def parseReconnStep (ws : List String) : Option Reconnect.Step :=
+  match ws with
+  | ["close"] => some .close
+  | ["open", "fail"] => some (.openNew none)
+  | ["open", h] => (unhex h).map fun b => .openNew (some b)
+  | "call" :: e :: arr :: op => do pure (.call (← parseOp op) (← unhex arr) (← endingOfName e))
+  | _ => none
+
+def showStepObs : Reconnect.StepObs → String
+  | .done ok => s!"done:{if ok then 1 else 0}"
+  | .result r => s!"w={match r.written with | none => "none" | some f => hex f} r={showResult r.result}"
+
+def reconnRun (kind unit e w : String) (rest : List String) : String :=
+  let stepWords := ((" ".intercalate rest).splitOn ";").map fun s => (s.splitOn " ").filter (· ≠ "")
+  match cfgOf kind unit e w, stepWords.mapM parseReconnStep with
+  | some cfg, some steps => ";".intercalate ((Reconnect.steps cfg Reconnect.Conn.new steps).1.map showStepObs)
+  | _, _ => "bad-op"
 
 /-- the property oracle of C03: frames are cut out of the stream by the MBAP reader, each complete
     frame must produce `Spec.serverEvents` -/
@@ -337,6 +375,8 @@ def step (line : String) : String :=
         ";".intercalate ((cmds.zip spec.1).map (fun (c, x) => showCmdResult c (some x))) ++ " | calls=" ++
         ";".intercalate (specCalls.map showHReq)
     | _, _ => "bad-op"
+  | "multi" :: sched :: conns => multiRun sched conns
+  | "reconn" :: kind :: unit :: e :: w :: rest => reconnRun kind unit e w rest
   | "cli" :: e :: w :: u :: args =>
     match u.toNat? with
     | some u => cliRun e w u args
